@@ -60,6 +60,7 @@ func vfProdRegions(run *vfProdRun) []string {
 	if c.Conf.Idempotent {
 		// history-based regions: what happened before the symptom
 		connErr, bump := false, false
+		answeredOK := map[string]bool{}
 		for _, e := range run.sim.hist.snapshot() {
 			switch e.Kind {
 			case "produce-drop", "produce-silent", "broker-down":
@@ -67,6 +68,17 @@ func vfProdRegions(run *vfProdRun) []string {
 			case "produce-part":
 				if len(e.Vals) >= 8 && e.Vals[5] > 0 {
 					bump = true
+				}
+				if len(e.Vals) >= 8 {
+					// a batch that was answered without an error code and comes again: the client lost the answer on its side
+					// (read timeout on a loaded machine), which is a connection-level failure as far as the producer is concerned
+					k := fmt.Sprintf("%s/%d/%d/%d", e.Key, e.Vals[4], e.Vals[5], e.Vals[6])
+					if answeredOK[k] {
+						connErr = true
+					}
+					if e.Fault == "ok" && (e.Code == 0 || e.Code == 46) {
+						answeredOK[k] = true
+					}
 				}
 			case "outcome":
 				if e.Note != "" {
